@@ -2564,7 +2564,25 @@ class Binop(Elemwise):
                 else self.right
             )
 
-            return tuple(self.operation(left_divisions, right_divisions))
+            frame = self.left if isinstance(self.left, Expr) else self.right
+            unknown = (None,) * (frame.npartitions + 1)
+            if (
+                isinstance(self.left, Expr)
+                and isinstance(self.right, Expr)
+                or not frame.known_divisions
+                # only these can map the labels strictly increasing
+                or self.operation
+                not in (operator.add, operator.sub, operator.mul, operator.truediv)
+            ):
+                return unknown
+            try:
+                divisions = tuple(self.operation(left_divisions, right_divisions))
+            except Exception:
+                return unknown
+            if not valid_divisions(divisions):
+                # e.g. a descending result
+                return unknown
+            return divisions
         else:
             return super()._divisions()
 
